@@ -274,7 +274,8 @@ def run_shard(ctx):
         if idx % 3 == 0:
             names = [n for n in gs.PLAIN_NAMES + gs.RENAMING_NAMES if n not in ("é", "1st")]
             doc = gen_docs.DocGen(rng, f"c06_{ctx.stream}_{tag}", names=names, untitled=0.3,
-                                  hostile_descriptions=idx % 2 == 0).doc()
+                                  hostile_descriptions=idx % 2 == 0,
+                                  coincident_names=0.4 if idx % 12 == 3 else 0.0).doc()
             try:
                 resolved = gen_docs.resolve(doc)
                 if not refmodel.metaschema_valid(resolved):
